@@ -739,10 +739,15 @@ Section Step.
           else if st_flag st2 =? 1 then Ok (st_set_flag st2 0)
           else if st_flag st2 =? 2 then
             do st3 <- exec_children inc (Ok (st_set_flag st2 0));
-            for_loop n' cond inc body lineno counter' st3
+            (* a BREAK / CONTINUE written in the increment belongs to this loop *)
+            if st_flag st3 =? 1 then Ok (st_set_flag st3 0)
+            else if st_flag st3 =? 2 then for_loop n' cond inc body lineno counter' (st_set_flag st3 0)
+            else for_loop n' cond inc body lineno counter' st3
           else
             do st3 <- exec_children inc (Ok st2);
-            for_loop n' cond inc body lineno counter' st3
+            if st_flag st3 =? 1 then Ok (st_set_flag st3 0)
+            else if st_flag st3 =? 2 then for_loop n' cond inc body lineno counter' (st_set_flag st3 0)
+            else for_loop n' cond inc body lineno counter' st3
     end.
 
   Definition LOOP_FUEL : nat := Z.to_nat (MAX_LOOP + 2).
